@@ -9,6 +9,8 @@ from hypothesis import strategies as st
 EVENT_POOL = ["go", "go_back", "g", "goo", "tick", "Tick", "go2"]
 GUARD_POOL = ["g0", "g1", "g2", "g3", "g4", "g5"]
 RET_POOL = [None, 0, "", [], [1], "r", 7, {"k": 1}, {"$t": [1, "x"]}, [None], False, {"$t": []}]
+TRUTHY = [True, True, 1, "yes", [0], 2.5, {"a": 1}, -1]
+FALSY = [False, False, 0, "", [], None, 0.0, {}]
 UNKNOWN_EVENTS = ["nope", "go_", "GO", "gone", "s0", "", "current_state", "allowed_events", "model", "activate_initial_state", "g0"]
 
 
@@ -241,7 +243,8 @@ def history(draw, spec, *, max_steps=25, unknown=True, args=True):
         val = {}
         for g in gids:
             if draw(st.integers(0, 9)) < 5:
-                val[g] = draw(st.integers(0, 9)) < 6
+                # guards return truthy / falsy values of any type, not only booleans
+                val[g] = draw(st.sampled_from(TRUTHY)) if draw(st.integers(0, 9)) < 6 else draw(st.sampled_from(FALSY))
         for v in vids:
             if draw(st.integers(0, 9)) < 5:
                 val[v] = draw(st.integers(0, 9)) < 2
@@ -254,3 +257,44 @@ def history(draw, spec, *, max_steps=25, unknown=True, args=True):
         kw = {"n": ctr} if (args and draw(st.booleans())) else {}
         steps.append({"val": val, "ev": ev, "args": a, "kw": kw, "style": "send"})
     return steps
+
+
+@st.composite
+def add_bundle(draw, spec):
+    """Append a bundle of transitions that can be declared with one call: two targets from one source (a.to(b, c)), two
+    sources into one target (c.from_(a, b)) or one event from every non-final state (from_.any()).  Returns the bundle list."""
+    n = len(spec["states"])
+    nonfinal = [i for i, s in enumerate(spec["states"]) if not s["final"]]
+    bundles = []
+
+    def guards():
+        return draw(st.lists(st.sampled_from([g["name"] for g in spec["guards"]]), max_size=1, unique=True)) if spec["guards"] else []
+
+    def add(src, dst, events, cond, unless):
+        spec["trans"].append({"src": src, "dst": dst, "events": list(events), "internal": False, "cond": list(cond), "unless": list(unless)})
+        return len(spec["trans"]) - 1
+
+    kind = draw(st.sampled_from([None, "multi-target", "multi-source", "any", "any"]))
+    if kind == "multi-target" and n >= 2:
+        src = draw(st.sampled_from(nonfinal))
+        dsts = draw(st.lists(st.integers(0, n - 1), min_size=2, max_size=min(3, n), unique=True))
+        evs = draw(st.lists(st.sampled_from(spec["events"] + ["bundle"]), min_size=1, max_size=2, unique=True))
+        c = guards()
+        bundles.append({"k": [add(src, d, evs, c, []) for d in dsts], "how": "multi-target"})
+    elif kind == "multi-source" and len(nonfinal) >= 2:
+        srcs = draw(st.lists(st.sampled_from(nonfinal), min_size=2, max_size=min(3, len(nonfinal)), unique=True))
+        dst = draw(st.integers(0, n - 1))
+        evs = draw(st.lists(st.sampled_from(spec["events"] + ["bundle"]), min_size=1, max_size=2, unique=True))
+        c = guards()
+        bundles.append({"k": [add(s_, dst, evs, c, []) for s_ in srcs], "how": "multi-source"})
+    elif kind == "any":
+        dst = draw(st.integers(0, n - 1))
+        c, u = guards(), []
+        if spec["guards"] and draw(st.booleans()):
+            u = [x for x in [draw(st.sampled_from([g["name"] for g in spec["guards"]]))] if x not in c and sum(1 for g in spec["guards"] if g["name"] == x) == 1]
+        bundles.append({"k": [add(s_, dst, ["anyev"], c, u) for s_ in nonfinal], "how": "any"})
+    for t in spec["trans"]:
+        for e in t["events"]:
+            if e not in spec["events"]:
+                spec["events"].append(e)
+    return bundles
